@@ -55,7 +55,7 @@ impl Op {
         match self { Op::Flush => "flush", Op::WriteOut => "writeout", Op::Consolidate => "consolidate", Op::Union => "union", Op::LocalPut => "localput", Op::CachePut => "cacheput", Op::SafeFile => "safefile" }
     }
     fn parse(s: &str) -> Option<Op> { [Op::Flush, Op::WriteOut, Op::Consolidate, Op::Union, Op::LocalPut, Op::CachePut, Op::SafeFile].into_iter().find(|o| o.name() == s) }
-    fn hists(self) -> usize { match self { Op::Flush => 3, Op::WriteOut => 3, Op::Consolidate => 5, Op::Union => 3, Op::LocalPut => 3, Op::CachePut => 4, Op::SafeFile => 3 } }
+    fn hists(self) -> usize { match self { Op::Flush => 3, Op::WriteOut => 3, Op::Consolidate => 5, Op::Union => 3, Op::LocalPut => 3, Op::CachePut => 5, Op::SafeFile => 3 } }
     fn is_shard(self) -> bool { matches!(self, Op::Flush | Op::WriteOut | Op::Consolidate | Op::Union) }
 }
 
@@ -215,6 +215,15 @@ fn cache_scn(seed: u64, hist: usize) -> CacheScn {
                CacheScn { keys, capacity: 1 << 24, prior: vec![(0, 0, 2), (1, 1, 4), (0, 6, 7)], new: (0, 2, 6), leftover: Some((0, ln, 333)), evicting: false } }
         // subsuming put: [0,6) covers [1,3) and [4,5)
         2 => CacheScn { keys: vec![cache_key(&mut rp, 8, 300, 900), cache_key(&mut rp, 4, 300, 900)], capacity: 1 << 24, prior: vec![(0, 1, 3), (0, 4, 5), (1, 0, 4), (0, 6, 8)], new: (0, 0, 6), leftover: None, evicting: false },
+        // a cache that is exactly full (capacity = bytes stored): K:[0,2) [2,4) [4,6) [6,8) and one item for each of ten other keys;
+        // the new item K:[0,8) subsumes the four and is smaller than them together, so no eviction is due and nothing may disappear;
+        // between its rename and the unlinks the directory holds more than the capacity
+        4 => { let mut keys = vec![cache_key(&mut rp, 8, 300, 700)];
+               for _ in 0..10 { keys.push(cache_key(&mut rp, 3, 400, 1200)); }
+               let mut prior = vec![(0usize, 0u32, 2u32), (0, 2, 4), (0, 4, 6), (0, 6, 8)];
+               for k in 1..keys.len() { prior.push((k, 0, 3)); }
+               let capacity: u64 = prior.iter().map(|(k, a, b)| { let (o, d) = keys[*k].slice(*a, *b); (d.len() + 4 * (o.len() + 1)) as u64 }).sum();
+               CacheScn { keys, capacity, prior, new: (0, 0, 8), leftover: None, evicting: false } }
         // evicting put: equal-sized items, capacity for four of them
         _ => { let mut keys: Vec<CacheKeyData> = Vec::new();
                for _ in 0..3 { let mut k = cache_key(&mut rp, 4, 1000, 1000); k.bounds = vec![0, 1000, 2000, 3000, 4000]; keys.push(k); }
